@@ -57,6 +57,7 @@ var HostileStrings = []string{
 	"' OR 1=1 --", "日本語", "emoji😀", "‮RTL", "é", "é", "\t", "\n", "a\nb", "NULL", "null", "nan",
 	"value", "description", "tombstone", "nodeType", "-1", "007", "1e3", "0x10", "00", "0.0",
 	"long-" + longStr(300),
+	"\x00", "a\x00", "\x00a", "a\x00b",
 }
 
 func longStr(n int) string {
